@@ -15,7 +15,9 @@
 (*                accounts "bonded", "notbonded", "distr", "fc"            *)
 (*                                                                         *)
 (* A configuration record `cf` carries the universe: D delegators, V       *)
-(* validators, Vseq (V in iteration order), valOrder (validators ordered   *)
+(* validators, Vseq (V as a sequence: the order redelegation entries are   *)
+(* listed in), iter (V in the store's iteration order = by address bytes:  *)
+(* the order withdrawRewards() visits them), valOrder (validators ordered  *)
 (* by operator address string: tie-break of transfer()), ut unbonding      *)
 (* time, maxEntries, minW (smallest reward withdrawRewards() bothers with).*)
 (*                                                                         *)
@@ -134,7 +136,7 @@ ApplyMsgs(cf, st, now, ms) == IF ms = <<>> THEN Fail(st) ELSE ApplyFrom(cf, st, 
 (* op = [m, v, src, to, act, md, signer, chain, tamper, amt]               *)
 (***************************************************************************)
 WithdrawSeq(cf, st, d) ==      \* validators withdrawRewards() pays out, in iteration order
-  Filter(cf.Vseq, LAMBDA v : st.deleg[d][v] > 0 /\ st.rew[d][v] >= cf.minW)
+  Filter(cf.iter, LAMBDA v : st.deleg[d][v] > 0 /\ st.rew[d][v] >= cf.minW)
 
 RECURSIVE WithdrawEach(_, _, _, _)
 WithdrawEach(st, d, vs, evs) ==
